@@ -44,9 +44,10 @@ ASSUMPTIONS = [
 FORMS = ['convert1', 'convert2', 'convertdict', 'convertwhere',
          'convertpassrow', 'convertmethod', 'convertall', 'convertnumbers',
          'format', 'formatall', 'interpolate', 'interpolateall', 'fieldmap',
-         'fieldmap2', 'rowmap', 'rowmapmany']
+         'fieldmap2', 'rowmap', 'rowmapmany', 'fieldmapdict']
 TWO_FIELD = ('convert2', 'convertdict', 'convertall', 'fieldmap2')
-NATURAL = ('convertmethod', 'convertnumbers', 'format', 'formatall',
+NATURAL = ('fieldmapdict',
+           'convertmethod', 'convertnumbers', 'format', 'formatall',
            'interpolate', 'interpolateall')
 
 
@@ -274,6 +275,8 @@ def _gen_case(rng, tier, g):
             else 'int',
             'extra_col': rng.random() < 0.5 and form != 'convertnumbers',
             'flaky': rng.random() < 0.2,
+            'long': [rng.random() < 0.5 for _ in range(3)]
+            if rng.random() < 0.3 else None,
             # converters that succeed by returning an exception object
             'returns_exc': form in ('convert1', 'convert2', 'convertdict',
                                     'convertwhere', 'convertpassrow',
@@ -282,6 +285,7 @@ def _gen_case(rng, tier, g):
 
 
 _EV_OBJ = ('sentinel-errorvalue',)
+_TRANSLATE = {1: 'one', 21: 'twenty-one', 41: 'forty-one'}
 _EVS = {'none': None, 'ERR': 'ERR', 'obj': _EV_OBJ, 'zero': 0, 'empty': '',
         'false': False}
 
@@ -298,8 +302,21 @@ def _table(case, natural_fail=None):
                    natural_fail.get((r, 'w'), r * 10 + 2)]
         if case['extra_col']:
             row.append('keep%d' % r)
+        if _is_long(case, r):
+            # a row longer than the header: convert carries the surplus
+            # cells over unchanged
+            row.append('surplus%d' % r)
         rows.append(row)
     return rows
+
+
+LONG_FORMS = ('convert1', 'convert2', 'convertdict', 'convertwhere',
+              'convertpassrow')
+
+
+def _is_long(case, r):
+    long = case.get('long')
+    return bool(long) and case['form'] in LONG_FORMS and long[r % len(long)]
 
 
 def _build(e, case, fl, policy, mode, tbl):
@@ -342,6 +359,14 @@ def _build(e, case, fl, policy, mode, tbl):
         return e.interpolate(tbl, 'v', '%d', **evkw)
     if form == 'interpolateall':
         return e.interpolateall(e.cut(tbl, 'v'), '%d', **evkw)
+    if form == 'fieldmapdict':
+        # a translation dictionary: looking an unhashable cell up in it
+        # fails (TypeError), which is a failing mapping like any other
+        from collections import OrderedDict
+        m = OrderedDict([('id', 'id'), ('v', ('v', dict(_TRANSLATE))),
+                         ('w', 'w')] + ([('x', 'x')] if case['extra_col']
+                                        else []))
+        return e.fieldmap(tbl, m, **evkw)
     if form == 'fieldmap':
         from collections import OrderedDict
         m = OrderedDict([('id', 'id'), ('V', ('v', fl.conv('v'))),
@@ -412,7 +437,8 @@ def _model(case, fail, policy):
                     break
             else:
                 cv, cw = v, w
-            rows.append([r, cv, cw] + (['keep%d' % r] if x else []))
+            rows.append([r, cv, cw] + (['keep%d' % r] if x else []) +
+                        (['surplus%d' % r] if _is_long(case, r) else []))
     elif form == 'convertall':
         rows.append(['v', 'w'])
         for r in range(n):
@@ -495,6 +521,8 @@ def _natural_model(case, failcells, policy):
         v = r * 10 + 1
         if form == 'convertmethod':
             good = 'ABC%d' % r
+        elif form == 'fieldmapdict':
+            good = _TRANSLATE.get(v, v)
         elif form == 'convertnumbers':
             good = v
         elif form in ('format', 'formatall'):
@@ -519,7 +547,9 @@ def _natural_cells(case, failcells):
     cells = {}
     for r in range(case['n']):
         bad = (r, 'v') in failcells
-        if form == 'convertmethod':
+        if form == 'fieldmapdict':
+            cells[(r, 'v')] = [r] if bad else r * 10 + 1
+        elif form == 'convertmethod':
             cells[(r, 'v')] = (r * 10 + 1) if bad else 'abc%d' % r
         elif form == 'convertnumbers':
             cells[(r, 'v')] = 'notnum%d' % r if bad else str(r * 10 + 1)
